@@ -32,6 +32,21 @@ func DumpModule(m *meta.Module, o DumpOpts) Dump {
 	d.defs("", m, m.DataDefinitions())
 	d.actions("", m)
 	d.notifs("", m)
+	// module-level identities: bases and directly derived identities in the order the accessor gives them
+	var ids []string
+	for name := range m.Identities() {
+		ids = append(ids, name)
+	}
+	sort.Strings(ids)
+	for _, name := range ids {
+		i := m.Identities()[name]
+		var derived []string
+		for _, x := range i.DerivedDirect() {
+			derived = append(derived, x.Ident())
+		}
+		d.add("identity "+name, "bases", strings.Join(i.BaseIds(), ","))
+		d.add("identity "+name, "derived", strings.Join(derived, ","))
+	}
 	return d.out
 }
 
